@@ -360,7 +360,54 @@ func (q *Q) finishPage(s *scan, store string, r *Resp, pr *sdkquery.PageResponse
 }
 
 var kindStore = map[string]string{"deployments": "dep", "orders": "ord", "bids": "bid", "leases": "lease", "providers": "prov",
-	"audits": "attest", "auditor": "attest", "eaccts": "eacct", "epays": "epay"}
+	"audits": "attest", "auditor": "attest", "eaccts": "eacct", "epays": "epay",
+	"k_deployments": "dep", "k_orders": "ord", "k_bids": "bid", "k_leases": "lease", "k_providers": "prov", "k_attests": "attest"}
+
+func isIterKind(kind string) bool { return kind == "eaccts" || kind == "epays" || strings.HasPrefix(kind, "k_") }
+
+// plain projects a returned object that carries no joined record.
+func (q *Q) plainItem(o interface{}) M {
+	cdc := q.W.App.AppCodec()
+	switch v := o.(type) {
+	case dtypes.Deployment:
+		c, rec, err := q.recDeployment(v)
+		if err != nil {
+			return badItem(err)
+		}
+		return M{"c": c, "rec": rec, "dg": itemDg(cdc, &v)}
+	case dtypes.Group:
+		c, rec, err := q.recGroup(v)
+		if err != nil {
+			return badItem(err)
+		}
+		return M{"c": c, "rec": rec, "dg": itemDg(cdc, &v)}
+	case mtypes.Order:
+		c, rec, err := q.recOrder(v)
+		if err != nil {
+			return badItem(err)
+		}
+		return M{"c": c, "rec": rec, "dg": itemDg(cdc, &v)}
+	case mtypes.Bid:
+		c, rec, err := q.recBid(v)
+		if err != nil {
+			return badItem(err)
+		}
+		return M{"c": c, "rec": rec, "dg": itemDg(cdc, &v)}
+	case mtypes.Lease:
+		c, rec, err := q.recLease(v)
+		if err != nil {
+			return badItem(err)
+		}
+		return M{"c": c, "rec": rec, "dg": itemDg(cdc, &v)}
+	case ptypes.Provider:
+		it, _ := q.itemProvider(v)
+		return it
+	case audtypes.Provider:
+		it, _ := q.itemAttest(v)
+		return it
+	}
+	return badItem(fmt.Errorf("unknown object %T", o))
+}
 
 // List executes one listing request. rawKey, when set, replaces the page key (walks feed next_key back verbatim).
 func (q *Q) List(ctx sdk.Context, s *scan, kind string, f Filter, pg Pg, rawKey []byte) (Resp, error) {
@@ -368,7 +415,7 @@ func (q *Q) List(ctx sdk.Context, s *scan, kind string, f Filter, pg Pg, rawKey 
 	store := kindStore[kind]
 	var page *sdkquery.PageRequest
 	var err error
-	if kind != "eaccts" && kind != "epays" {
+	if !isIterKind(kind) {
 		if rawKey != nil {
 			page = &sdkquery.PageRequest{Key: rawKey, Offset: uint64(pg.Offset), Limit: uint64(pg.Limit), CountTotal: pg.Ct}
 		} else if page, err = q.pageRequest(s, store, pg); err != nil {
@@ -504,6 +551,42 @@ func (q *Q) List(ctx sdk.Context, s *scan, kind string, f Filter, pg Pg, rawKey 
 		if perr != nil {
 			return r, perr
 		}
+		r.Total = len(r.Items)
+	case "k_deployments":
+		q.W.App.VerifKeepers().Deployment.WithDeployments(ctx, func(d dtypes.Deployment) bool {
+			r.Items = append(r.Items, q.plainItem(d))
+			return false
+		})
+		r.Total = len(r.Items)
+	case "k_orders":
+		q.W.App.VerifKeepers().Market.WithOrders(ctx, func(o mtypes.Order) bool {
+			r.Items = append(r.Items, q.plainItem(o))
+			return false
+		})
+		r.Total = len(r.Items)
+	case "k_bids":
+		q.W.App.VerifKeepers().Market.WithBids(ctx, func(b mtypes.Bid) bool {
+			r.Items = append(r.Items, q.plainItem(b))
+			return false
+		})
+		r.Total = len(r.Items)
+	case "k_leases":
+		q.W.App.VerifKeepers().Market.WithLeases(ctx, func(l mtypes.Lease) bool {
+			r.Items = append(r.Items, q.plainItem(l))
+			return false
+		})
+		r.Total = len(r.Items)
+	case "k_providers":
+		q.W.App.VerifKeepers().Provider.WithProviders(ctx, func(p ptypes.Provider) bool {
+			r.Items = append(r.Items, q.plainItem(p))
+			return false
+		})
+		r.Total = len(r.Items)
+	case "k_attests":
+		q.W.App.VerifKeepers().Audit.WithProviders(ctx, func(p audtypes.Provider) bool {
+			r.Items = append(r.Items, q.plainItem(p))
+			return false
+		})
 		r.Total = len(r.Items)
 	default:
 		return r, fmt.Errorf("HARNESS: unknown listing kind %q", kind)
@@ -659,5 +742,58 @@ func (q *Q) Get(ctx sdk.Context, kind string, c Coord) (Resp, error) {
 		pc, _, rec, err := q.recPayment(p)
 		return one(M{"c": pc, "rec": rec, "dg": itemDg(cdc, &p)}, err)
 	}
-	return r, fmt.Errorf("HARNESS: unknown get kind %q", kind)
+	// keeper reads by parent id
+	var perr error
+	func() {
+		defer func() {
+			if rec := recover(); rec != nil {
+				perr = fmt.Errorf("panic: %v", rec)
+			}
+		}()
+		k := q.W.App.VerifKeepers()
+		switch kind {
+		case "k_groups":
+			for _, g := range k.Deployment.GetGroups(ctx, q.depID(c)) {
+				r.Items = append(r.Items, q.plainItem(g))
+			}
+		case "k_ordersforgroup":
+			k.Market.WithOrdersForGroup(ctx, dtypes.MakeGroupID(q.depID(c), uint32(c.G)), func(o mtypes.Order) bool {
+				r.Items = append(r.Items, q.plainItem(o))
+				return false
+			})
+		case "k_bidsfororder":
+			k.Market.WithBidsForOrder(ctx, q.bidID(c).OrderID(), func(b mtypes.Bid) bool {
+				r.Items = append(r.Items, q.plainItem(b))
+				return false
+			})
+		case "k_bidcount":
+			r.Total = int(k.Market.BidCountForOrder(ctx, q.bidID(c).OrderID()))
+		case "k_leasefororder":
+			l, found := k.Market.LeaseForOrder(ctx, q.bidID(c).OrderID())
+			if !found {
+				r.Err = "NotFound"
+			} else {
+				r.Items = append(r.Items, q.plainItem(l))
+			}
+		case "k_attests_owner":
+			a, err := sdk.AccAddressFromBech32(q.addr(c.A))
+			if err != nil {
+				perr = fmt.Errorf("HARNESS: k_attests_owner needs an address: %v", err)
+				return
+			}
+			k.Audit.WithProvider(ctx, a, func(p audtypes.Provider) bool {
+				r.Items = append(r.Items, q.plainItem(p))
+				return false
+			})
+		default:
+			perr = fmt.Errorf("HARNESS: unknown get kind %q", kind)
+		}
+	}()
+	if perr != nil {
+		if strings.HasPrefix(perr.Error(), "HARNESS:") {
+			return r, perr
+		}
+		return fail(perr)
+	}
+	return r, nil
 }
